@@ -121,6 +121,9 @@ func (c *ConnModule) Update(value sqlite.Value, values ...sqlite.Value) error {
 			if err != nil {
 				return fmt.Errorf("write_time: must be like %s", s3db.SQLiteTimeFormat)
 			}
+			if !s3db.TimeInRange(newWriteTime) {
+				return errors.New("write_time: out of range (1677-09-22 to 2262-04-11)")
+			}
 		}
 	}
 
